@@ -258,7 +258,7 @@ pub mod go_side {
                 Decision::Killed => Err(Stop::Killed),
             }
         }
-        fn spawn(&mut self, it: &mut Interp, func: Arc<str>, args: Vec<V>) -> Result<(), Stop> {
+        fn spawn(&mut self, it: &mut Interp, func: V, args: Vec<V>) -> Result<(), Stop> {
             let id = self.sh.core.register();
             let sh = self.sh.clone();
             let h = std::thread::Builder::new()
@@ -270,7 +270,7 @@ pub mod go_side {
                     let mut gi = Interp::new(sh.prog.clone(), sh.fuel);
                     gi.out = sh.out.clone();
                     gi.host = Some(Box::new(ThreadHost { me: id, sh: sh.clone() }));
-                    let r = gi.call_func(&func, args);
+                    let r = gi.call_value(func, args);
                     if let Err(s) = &r {
                         if let Some(e) = stop_to_end(s) {
                             // an uncaught panic in any goroutine ends the whole program
